@@ -1910,3 +1910,5 @@ PROPS["C07"]["fams"] = PROPS["C07"]["fams"] + [("fam_vp9_syntax", 40, 1500)]
 PROPS["C12"]["fams"] = PROPS["C12"]["fams"] + [("fam_vp9_syntax", 30, 1000)]
 for _p in ("C09", "C03", "C16"):
     PROPS[_p]["fams"] = PROPS[_p]["fams"] + [("fam_negative_cts_av", 60, 2000)]
+for _p in ("C12", "C18", "C16"):
+    PROPS[_p]["fams"] = PROPS[_p]["fams"] + [("fam_ctimes", 150, 5000)]
